@@ -207,9 +207,14 @@ class WritePacketLock(Unit):
         I.override(raw(Connection, '_write_packet'), lambda I_, c, p: calls.append((p, lock.depth)), kind='contract')
         force = bool(E.fork(2, 'force'))
         pkt = Packet()
+        if E.fork(2, 'packet-used-before'):
+            # the same packet object was sent on ANOTHER connection before (another protocol version): it must be encoded
+            # under THIS connection's context, whatever it carried (seeded change C07-r9)
+            pkt.context = ConnectionContext(protocol_version=47)
         I.call(raw(Connection, 'write_packet'), conn, pkt, force)
         q = list(conn._outgoing_packet_queue)
-        E.check('write_packet.context', pkt.context is ctx)
+        E.check('write_packet.context', pkt.context is ctx,
+                note='write_packet stamps the packet with this connection\'s context, also when it already carried one')
         if force:
             E.check('lock.held-at-_write_packet', calls == [(pkt, 1)], note='forced write: exactly one _write_packet, lock held')
             E.check('forced.not-queued', q == old)
@@ -220,10 +225,14 @@ class WritePacketLock(Unit):
         return None
 
     def replay(self, model, label):
-        return replay_directed_all()
+        rp = replay_context_stamp()
+        return rp if rp['confirmed'] else replay_directed_all()
 
     def bounded(self, rng, tier):
-        fails, cnt = [], 0
+        fails, cnt = [], 1
+        rp = replay_context_stamp()
+        if rp['confirmed']:
+            fails.append(dict(call=rp['call'], observed=rp['observed'], witness='context-stamp'))
         for enabled in (False, True):
             for second in ('forced', 'drain'):
                 cnt += 1
@@ -232,6 +241,29 @@ class WritePacketLock(Unit):
                     fails.append(dict(call=rp['call'], observed=rp['observed'], witness='directed-schedule'))
         return dict(name='%s.directed-schedules' % self.name, evaluations=cnt, failures=fails[:1],
                     bound='4 directed two-thread schedules (intruder between the two sends of a frame)')
+
+
+def replay_context_stamp():
+    """One packet object written on two connections of different protocol versions: each must emit the id of ITS version."""
+    from minecraft.networking.packets import serverbound
+    out = {}
+    p = serverbound.play.ChatPacket()
+    p.message = 'hi'
+    for proto in (47, 754, 47):
+        conn = native_connection()
+        setattr(conn, lock_name(), threading.RLock())
+        conn.context = ConnectionContext(protocol_version=proto)
+        conn._outgoing_packet_queue = deque()
+        conn.options = types.SimpleNamespace(compression_enabled=False, compression_threshold=-1)
+        chunks = []
+        conn.socket = types.SimpleNamespace(send=lambda d, chunks=chunks: chunks.append(bytes(d)))
+        k, v = native_call(conn.write_packet, p, True)
+        data = b''.join(chunks)
+        want_id = serverbound.play.ChatPacket.get_id(conn.context)
+        if k != 'ok' or len(data) < 2 or data[1] != want_id:
+            return dict(confirmed=True, call='one ChatPacket object written (forced) on connections of protocol 47, 754, 47 in turn',
+                        observed='at protocol %d: %s %r, bytes %s (packet id must be 0x%02x)' % (proto, k, v, data.hex(), want_id))
+    return dict(confirmed=False, call='packet object reused across connections', observed='conforms')
 
 
 class DisconnectFlush(Unit):
@@ -290,8 +322,14 @@ class DisconnectFlush(Unit):
         fobj = types.SimpleNamespace(close=lambda: ev('file.close'))
         conn = harness_connection()
         conn.__dict__[lock_name()] = lock
+        # who serves the connection at the moment: nobody (before connect / after the thread ended), one thread, or a
+        # hand-over in progress (reconnect from a listener: the successor waits for its predecessor) - "sends everything
+        # queued before it" holds in each of them (seeded change C12-r9: nothing flushed during a hand-over)
+        tstate = E.fork(3, 'thread-state')
+        cur = types.SimpleNamespace(interrupt=False) if tstate >= 1 else None
+        new = types.SimpleNamespace(interrupt=False) if tstate == 2 else None
         conn.__dict__.update(_outgoing_packet_queue=self.queue, socket=sock, file_object=fobj, connected=True,
-                             networking_thread=types.SimpleNamespace(interrupt=False), new_networking_thread=None)
+                             networking_thread=cur, new_networking_thread=new)
         try:
             I.call(raw(Connection, 'disconnect'), conn, immediate)
         except PyRaise as e:
@@ -330,7 +368,7 @@ class DisconnectFlush(Unit):
             if not rp['confirmed']:
                 rp = replay_directed(enabled, 'disconnect')
                 n += 1
-        return dict(name='C12.flush.concrete', evaluations=n, bound='queues of 0, 1, 5, 400 packets, immediate and not, shutdown() succeeding or raising ENOTCONN, '
+        return dict(name='C12.flush.concrete', evaluations=n, bound='queues of 0, 1, 5, 400 packets, immediate and not, shutdown() succeeding or raising ENOTCONN, no / one / two (hand-over) networking threads, '
                     'on the real Connection; 4 directed schedules of a forced write racing with the teardown',
                     failures=[dict(call=rp['call'], observed=rp['observed'], witness='flush')] if rp['confirmed'] else [])
 
@@ -406,7 +444,7 @@ def replay_close_race():
 def replay_flush():
     n = 0
     import itertools
-    for size, shutdown_raises in itertools.product((0, 1, 5, 400), (False, True)):
+    for size, shutdown_raises, tstate in itertools.product((0, 1, 5, 400), (False, True), (0, 1, 2)):
         for immediate in (False, True):
             n += 1
             log = []
@@ -422,12 +460,14 @@ def replay_flush():
             conn.socket = types.SimpleNamespace(shutdown=shutdown, close=lambda: log.append('close'))
             conn.file_object = types.SimpleNamespace(close=lambda: log.append('file.close'))
             conn.connected = True
-            conn.networking_thread, conn.new_networking_thread = None, None
+            conn.networking_thread = types.SimpleNamespace(interrupt=False) if tstate >= 1 else None
+            conn.new_networking_thread = types.SimpleNamespace(interrupt=False) if tstate == 2 else None
             k, v = native_call(conn.disconnect, immediate)
             want = ([] if immediate else list(range(size))) + ['shutdown', 'file.close', 'close']
             if k != 'ok' or log != want:
-                return dict(confirmed=True, n=n, call='disconnect(immediate=%r) with %d queued packets%s'
-                            % (immediate, size, ', socket.shutdown raising ENOTCONN' if shutdown_raises else ''),
+                return dict(confirmed=True, n=n, call='disconnect(immediate=%r) with %d queued packets%s%s'
+                            % (immediate, size, ', socket.shutdown raising ENOTCONN' if shutdown_raises else '',
+                               ('', ', one networking thread', ', during a hand-over to a successor thread')[tstate]),
                             observed='%s; events %r...' % (k, log[-6:]))
     return dict(confirmed=False, n=n, call='disconnect flush', observed='conforms')
 
